@@ -67,6 +67,8 @@ __CPROVER_ensures((agg)->value == 1 ==> (gh_resolved_by_me == 1 && *gh_F_slot ==
 __CPROVER_ensures((agg)->value == 1 ==> (payload_ok)) \
 __CPROVER_ensures((agg)->value == 1 ==> (gh_rc_calls == 1 && gh_rc_chain == gh_chain_at_resolve && RET_IS_RC(agg)))     /* exactly the detached waiters are handed on, once */ \
 __CPROVER_ensures(((agg)->value == 1) == (__CPROVER_old(gh_tok) == TOK_CELL && gh_tok == TOK_SPENT && gh_resolved_by_me == 1)) \
+/* a returning call never keeps the right to resolve: whoever takes it out of the cell resolves (otherwise NO resolution would take effect) */ \
+__CPROVER_ensures(gh_tok != TOK_ME) \
 /* failure: leaves no trace */ \
 __CPROVER_ensures((agg)->value == 0 ==> (gh_resolved_by_me == 0 && gh_rc_calls == 0 && gh_n_slot_rmw == __CPROVER_old(gh_n_slot_rmw) && (agg)->base_suspend_point._count_flag == 0)) \
 __CPROVER_ensures((agg)->value == 0 ==> (F_STATE(FUT0) == __CPROVER_old(F_STATE(FUT0)) && F_EXCP(FUT0) == __CPROVER_old(F_EXCP(FUT0)))) \
